@@ -1,3 +1,5 @@
+import FrappyProofs.Lemmas.Comm
 import FrappyProofs.Lemmas.Logging
 import FrappyProofs.Lemmas.Rotate
+import FrappyProofs.Props.C16
 import FrappyProofs.Props.C20
